@@ -27,7 +27,8 @@ CHECK = {
                    "exponent lets opposite defects cancel at every challenge (seed C15-1); Guard::batch_verify, collapse "
                    "and from_dual_msm are exact (no exceptional value); the in-circuit accumulate equals the off-circuit "
                    "one; accumulate_with_r and from_dual_msm name by name for arbitrary key sets and repeated labels; "
-                   "order/multiplicity; first-error semantics; totality of every entry point with the value returned; "
+                   "order/multiplicity; first-error semantics; totality of every entry point with the value returned "
+                   "(accumulate of an empty slice, off- and in-circuit, is the neutral accumulator, which check accepts); "
                    "the batching challenge is squeezed after every member's complete transcript block, for every batch "
                    "size (global_schedule_r_after_all). The model is run against the real code on every check, and the "
                    "property's oracle (batch verdict == conjunction of individual verdicts, incl. adaptive attacks that "
@@ -55,8 +56,9 @@ CHECK = {
                   "Guard::batch_verify, collapse, from_dual_msm) - the random-oracle step from 'few bad challenges' to "
                   "'negligible probability' is not formalised; that r is squeezed after every member's block is a theorem "
                   "about the model's schedule, tied to the code by the recorded order of hasher operations (kinds, byte "
-                  "lengths, owner) on every sampled batch, not by a proof about the Rust control flow. Known finding: "
-                  "Accumulator::accumulate(&[]) panics (accs[0])",
+                  "lengths, owner) on every sampled batch, not by a proof about the Rust control flow. Accumulator::accumulate / "
+                  "AssignedAccumulator::accumulate of an empty slice (they panicked at accs[0]) were repaired in f706bff "
+                  "and are regression cases of every run",
     "assumptions": [
         "the batching challenge r (Blake2b transcript) and the accumulation challenge (Poseidon sponge) behave as values "
         "the prover cannot steer into the exceptional set (roots of the combination polynomial)",
